@@ -225,6 +225,22 @@ def env():
 XBOOM_CODES = (1, 2, 3, 4, 5, 6, 7, 8, 9, 12, 20, 21, 22, 23, 24)
 
 
+def cb_class(poison):
+    """the test callback class; poison != 0: its objects have a property whose getter raises that exception, i.e. what
+    Logger.exception's debug helper (utils.python.collect_extra_debug_data) meets when it inspects the `self` of a
+    traceback frame of a faulty plugin (a @property over state that is not there yet)"""
+    E = env()
+    if not poison:
+        return E['TestCb']
+    cache = E.setdefault('pcls', {})
+    if poison not in cache:
+        def broken_property(self):
+            raise mk_exc(poison)
+        base = E['TestCb']
+        cache[poison] = type(base)('PoisonedCb%d' % poison, (base,), {'broken_property': property(broken_property)})
+    return cache[poison]
+
+
 def decoder(inp):
     """the decode_raw_line of the case: the real one, or (inp['decode'] == 'se') a stand-in that yields lone surrogates, so that
     the real send path (Irc._truncateMsg under the takeMsg firewall, data.encode() in _sendIfMsgs) meets unencodable echoes"""
@@ -241,7 +257,7 @@ def run_impl(inp):
     H.addmsg = {r[0]: r for r in inp.get('addmsg', [])}
     cbs = [E['TestCb'](0, {'in': {}, 'call': {}, 'out': [0, 0]})]
     for i, spec in enumerate(inp.get('cbs', [])):
-        cbs.append(E['TestCb'](i + 1, {'in': {r[0]: r for r in spec['in']}, 'call': {r[0]: r for r in spec['call']},
+        cbs.append(cb_class(spec.get('poison', 0))(i + 1, {'in': {r[0]: r for r in spec['in']}, 'call': {r[0]: r for r in spec['call']},
                                    'out': spec['out']}))
     irc = E['TIrc']('test', callbacks=cbs)
     irc.state.__class__ = E['FaultyState']
@@ -389,7 +405,7 @@ def wire_chunks(inp):
 
 def wire_case(inp, dispatch_rows):
     dtab, vts = model_tables(inp)
-    cbs = [[[], [], [0, 0]]] + [[spec['in'], spec['call'], spec['out']] for spec in inp.get('cbs', [])]     # callback 0: passive
+    cbs = [[[], [], [0, 0], 0]] + [[spec['in'], spec['call'], spec['out'], spec.get('poison', 0)] for spec in inp.get('cbs', [])]     # callback 0: passive
     return [0, [wire_chunks(inp), dtab, vts, dispatch_rows, inp.get('addmsg', []), cbs]]
 
 
@@ -515,6 +531,14 @@ def gen_script(rng, nlines, heavy):
                     spec['call'].append([n, 0, rng.choice(codes)])
             if rng.random() < 0.4:
                 spec['out'] = [rng.choice([0, ord('t'), ord('x')]), rng.choice(codes)]
+        if heavy and rng.random() < 0.3:
+            # an object with a property that raises when inspected; what this callback raises is an Exception subclass
+            spec['poison'] = rng.choice([1, 2, 3, 4, 6, 12])
+            for r in spec['in'] + spec['call']:
+                if r[2] >= 20:
+                    r[2] = 12
+            if spec['out'][1] >= 20:
+                spec['out'][1] = 12
         cbs.append(spec)
     addmsg = [[n, 0, rng.choice(codes)] for n in range(nlines) if heavy and rng.random() < 0.1]
     return cbs, addmsg
@@ -643,6 +667,12 @@ def mutate(rng, l):
 
 
 CORPUS = [
+    # a faulty plugin whose object has a property that raises when inspected (KeyError / ValueError / RuntimeError): its
+    # __call__, inFilter and outFilter raise; every swallowing handler runs Logger.exception -> collect_extra_debug_data on it
+    {'chunks': [['d', ':n!u@h PRIVMSG #c :x\r\n'], ['d', 'PING :after\r\n']], 'addmsg': [], 'final_ping': 'after',
+     'cbs': [{'in': [], 'call': [[0, 0, 12]], 'out': [0, 0], 'poison': 3}]},
+    {'chunks': [['d', ':n!u@h PRIVMSG #c :x\r\nPING :ta\r\n'], ['d', 'PING :after\r\n']], 'addmsg': [], 'final_ping': 'after',
+     'cbs': [{'in': [[0, 0, 1, 1]], 'call': [], 'out': [0, 0], 'poison': 2}, {'in': [], 'call': [], 'out': [116, 3], 'poison': 12}]},
     # witness of the repaired finding C07.F45: an ISUPPORT token CHANTYPES without value must not stall the message path
     {'chunks': [['d', ':srv 005 test CHANTYPES :are supported\r\n'], ['d', 'PING :abc\r\n']], 'cbs': [], 'addmsg': [], 'final_ping': 'abc'},
     {'chunks': [['d', 'PING :before\r\n:srv 005 test CHANNELLEN chantypes=t# :are supported\r\nPING test\r\n:n!u@h PRIVMSG #c :x\r\n'],
@@ -765,6 +795,7 @@ def gen_cases(ctx):
         ls = [rng.choice(VALID + ABSURD + ['XBOOM 24', 'PING :xq', 'PING :tq']) for _ in range(rng.randint(1, 6))]
         inp = mk_case(rng, ls, final=False)
         for spec in inp['cbs']:
+            spec.pop('poison', None)        # the model attaches a poisoned traceback to Exception subclasses only
             if rng.random() < 0.5:
                 spec['out'] = [rng.choice([0, 120, 116]), 24]
             for rows in (spec['in'], spec['call']):
